@@ -33,7 +33,17 @@ META = {
              "comparison mode) and add_trait of new names while static, anytrait, on_trait_change "
              "(function, bound method, whole-object), observe, @observe and nested observe handlers are "
              "attached; 'private' = declared names with a leading underscore whose magic-named handlers "
-             "are spelled as the compiler mangles them, over subclass layouts."),
+             "are spelled as the compiler mangles them, over subclass layouts. A fifth stratum, 'churn', "
+             "varies the POPULATION of handlers during a 22-step history over 2-4 names (with and without "
+             "static handlers) on 1-2 objects: registrations and removals are interleaved with the "
+             "assignments -- on_trait_change for one name / several names in one call (list, 'a, b') / "
+             "through an owner (function arity 0-4, bound method, priority), on_trait_change with no name "
+             "(object-level; name omitted / None / 'anytrait'), observe for one / several names / through "
+             "an owner; removal with remove=True or by dropping the owner of a bound method, handlers put "
+             "back after removal -- so each (object, name) passes through the states trait-level listeners "
+             "never / live / all left x object-level listeners never / live / all left; after every change "
+             "each currently registered handler must have been called exactly once and each removed one "
+             "not at all."),
     "phases": [{"name": "main", "flavour": "P", "shards": 16}],
     "gates": {
         "quick": {"evaluations": 20000, "notifying_assignments": 6000, "silent_assignments": 1500,
@@ -53,7 +63,20 @@ META = {
                   "new_names_added": 700, "assignments_to_added_names": 250,
                   "late_subclasses": 300, "assignments_on_late_subclass_instances": 500,
                   "changes_of_private-name/static-inherited": 80,
-                  "handler_obligations_checked": 20000},
+                  "handler_obligations_checked": 20000,
+                  "churn_histories": 800, "churn_assignments_notifying": 6500,
+                  "churn_assignments_silent": 800, "churn_registrations_trait_level": 3000,
+                  "churn_registrations_object_level": 1000, "churn_removals_trait_level": 2000,
+                  "churn_removals_object_level": 650, "churn_removals_by_dropping_the_owner": 100,
+                  "churn_handlers_registered_again_after_removal": 400,
+                  "churn_last_trait_level_listener_removed_while_object_level_listeners_remain": 200,
+                  "churn_last_object_level_listener_removed_while_trait_level_listeners_remain": 180,
+                  "churn_changes_with_trait-level=left,object-level=live": 180,
+                  "churn_changes_with_trait-level=live,object-level=left": 230,
+                  "churn_changes_with_trait-level=left,object-level=left": 230,
+                  "churn_event_firings_with_trait-level=left,object-level=live": 70,
+                  "churn_handler_obligations_checked": 10000,
+                  "churn_removed_handlers_seen_silent": 5000, "churn_raising_handler_calls": 600},
         "thorough": {"evaluations": 4000000, "notifying_assignments": 1500000,
                      "silent_assignments": 400000, "rejected_assignments": 400000, "reads": 500000,
                      "raising_handler_calls": 400000, "oldnew_checked": 4000000,
@@ -75,7 +98,22 @@ META = {
                      "new_names_added": 70000, "assignments_to_added_names": 25000,
                      "late_subclasses": 30000, "assignments_on_late_subclass_instances": 50000,
                      "changes_of_private-name/static-inherited": 7500,
-                     "handler_obligations_checked": 1800000},
+                     "handler_obligations_checked": 1800000,
+                     "churn_histories": 48000, "churn_assignments_notifying": 390000,
+                     "churn_assignments_silent": 48000, "churn_registrations_trait_level": 180000,
+                     "churn_registrations_object_level": 60000,
+                     "churn_removals_trait_level": 120000, "churn_removals_object_level": 39000,
+                     "churn_removals_by_dropping_the_owner": 6000,
+                     "churn_handlers_registered_again_after_removal": 24000,
+                     "churn_last_trait_level_listener_removed_while_object_level_listeners_remain": 12000,
+                     "churn_last_object_level_listener_removed_while_trait_level_listeners_remain": 10800,
+                     "churn_changes_with_trait-level=left,object-level=live": 10800,
+                     "churn_changes_with_trait-level=live,object-level=left": 13800,
+                     "churn_changes_with_trait-level=left,object-level=left": 13800,
+                     "churn_event_firings_with_trait-level=left,object-level=live": 4200,
+                     "churn_handler_obligations_checked": 600000,
+                     "churn_removed_handlers_seen_silent": 300000,
+                     "churn_raising_handler_calls": 36000},
     },
     "assumptions": [
         "value pools avoid objects whose == and != are mutually inconsistent (the statement's "
@@ -85,6 +123,10 @@ META = {
         "(whether a name-mangled method counts as registered for a wildcard-made name is not settled by "
         "the statement); stratum private judges them on declared names only",
         "the value left readable after add_trait replaced a definition is adopted as 'before', not judged",
+        "stratum churn: a removal repeats the name argument of a registration call (names registered one "
+        "by one or through a list may also be removed through a list); what a removal spelled differently "
+        "from the registration takes away, and double registration of one handler for one name, are "
+        "registration semantics (C09), not judged here",
     ],
 }
 
@@ -573,7 +615,8 @@ def run(ctx):
         BW = 25
         for si, (stratum, nw) in enumerate((("wild", ctx.scale(900, 100000)),
                                             ("redef", ctx.scale(900, 100000)),
-                                            ("private", ctx.scale(300, 30000)))):
+                                            ("private", ctx.scale(300, 30000)),
+                                            ("churn", ctx.scale(1600, 200000)))):
             for b in range(0, nw, BW):
                 if not ctx.mine(b // BW + si):
                     continue
@@ -581,7 +624,10 @@ def run(ctx):
                     continue
                 try:
                     for h in range(b, min(nw, b + BW)):
-                        _c02_worlds.run_world(ctx, stratum, h, legacy_errs, obs_errs)
+                        if stratum == "churn":
+                            _c02_worlds.run_churn(ctx, h, legacy_errs, obs_errs)
+                        else:
+                            _c02_worlds.run_world(ctx, stratum, h, legacy_errs, obs_errs)
                         ctx.count("histories")
                     if b < BW * ctx.nshards:
                         ctx.sample({"stratum": stratum, "history_batch_from": b, "size": BW})
